@@ -25,6 +25,8 @@ type Program struct {
 	LoadMS  int64
 	nested  map[types.Type]bool
 	arrayElems map[string]bool
+	nonNil     map[*ssa.Global]bool
+	nonNilDone map[*ssa.Package]bool
 }
 
 func shimOverlay() string {
